@@ -144,6 +144,12 @@ type c02Op struct {
 	SubmissionPresent bool `json:"submission,omitempty"`
 	Code       *string     `json:"code,omitempty"`
 	Verifier   *string     `json:"verifier,omitempty"`
+	// authreq
+	RedirectURI string `json:"redirect_uri,omitempty"`
+	Aud         string `json:"aud,omitempty"`
+	ClientState string `json:"client_state,omitempty"`
+	Challenge   string `json:"challenge,omitempty"`
+	Method      string `json:"method,omitempty"`
 	// introspect / probe / advance
 	Token    string `json:"token,omitempty"`
 	Extended bool   `json:"extended,omitempty"`
@@ -168,6 +174,8 @@ type c02World struct {
 	codeReal  map[string]string
 	nonceNames map[string]string
 	nonceReal  map[string]string
+	stateNames map[string]string
+	stateReal  map[string]string
 	dpopKeys []*ecdsa.PrivateKey
 	dpopJkt  map[string]string // real thumbprint -> jkt#i
 	defs     map[int]pe.PresentationDefinition
@@ -181,7 +189,7 @@ const c02PublicURL = "https://as.example"
 func c02NewWorld(t *testing.T, cfg c02Op) *c02World {
 	ctrl := gomock.NewController(t)
 	w := &c02World{t: t, ctrl: ctrl, verdicts: map[string]bool{}, vcVerdicts: map[string]bool{}, tokNames: map[string]string{}, tokReal: map[string]string{},
-		codeNames: map[string]string{}, codeReal: map[string]string{}, nonceNames: map[string]string{}, nonceReal: map[string]string{}, dpopJkt: map[string]string{}, defs: map[int]pe.PresentationDefinition{}}
+		codeNames: map[string]string{}, codeReal: map[string]string{}, nonceNames: map[string]string{}, nonceReal: map[string]string{}, stateNames: map[string]string{}, stateReal: map[string]string{}, dpopJkt: map[string]string{}, defs: map[int]pe.PresentationDefinition{}}
 	w.db = storage.NewVerifSessionDB()
 	engine := storage.NewMockEngine(ctrl)
 	engine.EXPECT().GetSessionDatabase().Return(w.db).AnyTimes()
@@ -362,6 +370,10 @@ var c02ErrTags = [][2]string{
 	{"invalid or missing nonce/challenge in presentation", "nonce-invalid"},
 	{"invalid nonce/state", "nonce-state-mismatch"},
 	{"missing presentation_submission", "missing-submission"},
+	{"missing redirect_uri parameter", "missing-redirect_uri"},
+	{"invalid audience, expected", "invalid-audience"},
+	{"missing code_challenge parameter", "missing-code_challenge"},
+	{"invalid value for code_challenge_method", "invalid-code_challenge_method"},
 }
 
 func c02Err(err error) string {
@@ -668,7 +680,7 @@ func (w *c02World) execProbe(op *c02Op) string {
 	case "code":
 		err = w.w.oauthCodeStore().Get(w.realCode(op.Key), new(OAuthSession))
 	case "state":
-		err = w.w.oauthClientStateStore().Get(op.Key, new(OAuthSession))
+		err = w.w.oauthClientStateStore().Get(*w.realState(&op.Key), new(OAuthSession))
 	case "token":
 		k := op.Key
 		if r, ok := w.tokReal[k]; ok {
@@ -688,7 +700,7 @@ func (w *c02World) execProbe(op *c02Op) string {
 }
 
 func (w *c02World) realCode(name string) string {
-	for _, m := range []map[string]string{w.codeReal, w.nonceReal, w.tokReal} {
+	for _, m := range []map[string]string{w.codeReal, w.nonceReal, w.tokReal, w.stateReal} {
 		if r, ok := m[name]; ok {
 			return r
 		}
@@ -743,6 +755,73 @@ func (w *c02World) execSeed(op *c02Op) string {
 	return "seeded"
 }
 
+func (w *c02World) nonceName(real string) string {
+	name, known := w.nonceNames[real]
+	if !known {
+		name = fmt.Sprintf("on#%d", len(w.nonceNames))
+		w.nonceNames[real] = name
+		w.nonceReal[name] = real
+	}
+	return name
+}
+
+// execAuthReq runs the real authorization-request handler (after JAR parsing: it takes the parameter map)
+func (w *c02World) execAuthReq(op *c02Op) string {
+	params := oauthParameters{}
+	set := func(k, v string) {
+		if v != "" {
+			params[k] = v
+		}
+	}
+	set(oauth.RedirectURIParam, op.RedirectURI)
+	set("aud", op.Aud)
+	if op.ClientID != nil {
+		set(oauth.ClientIDParam, *op.ClientID)
+	}
+	set(oauth.ScopeParam, op.Scope)
+	set(oauth.StateParam, op.ClientState)
+	set(oauth.CodeChallengeParam, op.Challenge)
+	set(oauth.CodeChallengeMethodParam, op.Method)
+	set(oauth.ResponseTypeParam, "code")
+	op.T = w.nowNs()
+	return c02Recover(func() string {
+		resp, err := w.w.handleAuthorizeRequestFromHolder(context.Background(), op.Subject, params)
+		if err != nil {
+			return c02Err(err)
+		}
+		r, ok := resp.(HandleAuthorizeRequest302Response)
+		if !ok {
+			return fmt.Sprintf("unexpected-response:%T", resp)
+		}
+		u, err := url.Parse(r.Headers.Location)
+		if err != nil {
+			return "unparsable-redirect"
+		}
+		state := u.Query().Get("state")
+		name, known := w.stateNames[state]
+		if !known {
+			name = fmt.Sprintf("st#%d", len(w.stateNames))
+			w.stateNames[state] = name
+			w.stateReal[name] = state
+		}
+		owner := "?"
+		if pd, err := url.Parse(u.Query().Get("presentation_definition_uri")); err == nil {
+			owner = pd.Query().Get("wallet_owner_type")
+		}
+		return fmt.Sprintf("302 state=%s nonce=%s owner=%s", name, w.nonceName(u.Query().Get("nonce")), owner)
+	})
+}
+
+func (w *c02World) realState(name *string) *string {
+	if name == nil {
+		return nil
+	}
+	if r, ok := w.stateReal[*name]; ok {
+		return &r
+	}
+	return name
+}
+
 func (w *c02World) execAuthResp(op *c02Op) string {
 	w.script(op.VPs)
 	op.Pex = []int{}
@@ -758,7 +837,7 @@ func (w *c02World) execAuthResp(op *c02Op) string {
 			}
 		}
 	}
-	body := HandleAuthorizeResponseFormdataRequestBody{State: op.State}
+	body := HandleAuthorizeResponseFormdataRequestBody{State: w.realState(op.State)}
 	if op.VpToken && op.Assertion != nil {
 		// server-generated nonces are known to the generator by name only
 		raw := *op.Assertion
@@ -799,14 +878,7 @@ func (w *c02World) execAuthResp(op *c02Op) string {
 		if pd, err := url.Parse(u.Query().Get("presentation_definition_uri")); err == nil {
 			owner = pd.Query().Get("wallet_owner_type")
 		}
-		nonce := u.Query().Get("nonce")
-		name, known := w.nonceNames[nonce]
-		if !known {
-			name = fmt.Sprintf("on#%d", len(w.nonceNames))
-			w.nonceNames[nonce] = name
-			w.nonceReal[name] = nonce
-		}
-		return fmt.Sprintf("200 next=%s nonce=%s", owner, name)
+		return fmt.Sprintf("200 next=%s nonce=%s", owner, w.nonceName(u.Query().Get("nonce")))
 	})
 }
 
@@ -849,6 +921,8 @@ func (w *c02World) exec(op *c02Op) string {
 		return w.execSeed(op)
 	case "authresp":
 		return w.execAuthResp(op)
+	case "authreq":
+		return w.execAuthReq(op)
 	case "code":
 		return w.execCode(op)
 	}
@@ -1313,6 +1387,53 @@ func (g *c02Gen) seed() c02Op {
 	sess.Nonces = []string{nonce}
 	g.sessions = append(g.sessions, sess)
 	return c02Op{Op: "seed", State: &sess.State, Nonce: nonce, Session: &sess.Spec}
+}
+
+var c02AuthReqDefects = []string{"missing-redirect_uri", "wrong-audience", "missing-challenge", "method-plain", "method-missing", "wrong-scope"}
+
+// authRequest builds an authorization request (the parameters a parsed request object carries) from a valid one plus defects
+func (g *c02Gen) authRequest(defects []string) (c02Op, *c02GenSession) {
+	has := func(x string) bool {
+		for _, y := range defects {
+			if x == y {
+				return true
+			}
+		}
+		return false
+	}
+	g.seq++
+	pol := g.policy[g.rng.Intn(len(g.policy))]
+	subject := g.pick(g.subjects)
+	sess := &c02GenSession{Verifier: fmt.Sprintf("verifier-%d-%d", g.seq, g.rng.Intn(1000)), Scope: pol.Scope}
+	client := "https://client.example/oauth2/" + g.pick([]string{"c1", "c2"})
+	sess.Spec = c02Session{ClientID: client, Scope: pol.Scope, OwnSubject: subject, Challenge: c02S256(sess.Verifier), Method: "S256",
+		ClientState: fmt.Sprintf("cs%d", g.seq), Required: pol.Defs}
+	op := c02Op{Op: "authreq", Subject: subject, RedirectURI: "https://client.example/callback", Aud: c02PublicURL + "/oauth2/" + subject,
+		ClientID: &client, Scope: pol.Scope, ClientState: sess.Spec.ClientState, Challenge: sess.Spec.Challenge, Method: "S256", Defects: defects}
+	if has("missing-redirect_uri") {
+		op.RedirectURI = ""
+	}
+	if has("wrong-audience") {
+		op.Aud = g.wrongAudience(subject)
+	}
+	if has("missing-challenge") {
+		op.Challenge = ""
+	}
+	if has("method-plain") {
+		op.Method = g.pick([]string{"plain", "s256", "S256 ", "S25"})
+	}
+	if has("method-missing") {
+		op.Method = ""
+	}
+	if has("wrong-scope") {
+		op.Scope = g.pick([]string{"nope", g.nearMiss(pol.Scope)})
+		for _, p := range g.policy {
+			if p.Scope == op.Scope {
+				op.Scope = "nope"
+			}
+		}
+	}
+	return op, sess
 }
 
 // authResponse builds a direct_post authorization response for a session from a valid one plus defects
@@ -2156,7 +2277,7 @@ func TestVerifC02(t *testing.T) {
 		nOps := 12 + rng.Intn(25)
 		for i := 0; i < nOps; i++ {
 			var op c02Op
-			var fresh *c02GenSession
+			var fresh, pendingSess *c02GenSession
 			for _, sess := range g.sessions {
 				if !sess.Used {
 					fresh = sess
@@ -2164,7 +2285,11 @@ func TestVerifC02(t *testing.T) {
 			}
 			switch r := rng.Intn(135); {
 			case r >= 100 && fresh == nil && rng.Intn(3) > 0:
-				op = g.seed()
+				if rng.Intn(3) == 0 {
+					op = g.seed() // an arbitrary server state (also sessions no authorization request would create)
+				} else {
+					op, pendingSess = g.authRequest(g.subsetOf(c02AuthReqDefects, 2))
+				}
 			case r >= 100 && r < 118 && fresh != nil:
 				op = g.authResponse(fresh, g.subsetOf(c02AuthDefects, 3), w.nowMs())
 				fresh.Used = true
@@ -2225,6 +2350,12 @@ func TestVerifC02(t *testing.T) {
 				}
 			}
 			line := w.exec(&op)
+			if op.Op == "authreq" && pendingSess != nil && strings.HasPrefix(line, "302 ") {
+				f := strings.Fields(line)
+				pendingSess.State = f[1][len("state="):]
+				pendingSess.Nonces = []string{f[2][len("nonce="):]}
+				g.sessions = append(g.sessions, pendingSess)
+			}
 			if op.Op == "authresp" && op.State != nil {
 				for _, sess := range g.sessions {
 					if sess.State != *op.State {
